@@ -71,8 +71,19 @@ def gen_cubes(tier, seed):
         if api == "grp" and dtype == "float64":
             dtype = "float32"
         if api == "accessor":
-            dtype = "int16"
-            pixels = [[float(int(round(max(-32000, min(32000, x))))) for x in px] for px in pixels]
+            # every integer width the accessor may be handed (values beyond the int16 range included), not only int16
+            dtype = rng.choice(["int16", "int16", "uint16", "int32", "uint8"])
+            lo, hi = {"int16": (-32000, 32000), "uint16": (0, 65000), "int32": (-2_000_000_000, 2_000_000_000), "uint8": (0, 250)}[dtype]
+            if dtype in ("uint16", "uint8"):
+                nd2 = 9999 if dtype == "uint16" else 255
+                pixels = [[float(nd2) if x == nd else x for x in px] for px in pixels]
+                nd = nd2
+            pixels = [[x if x == nd else float(int(round(max(lo, min(hi, x))))) for x in px] for px in pixels]
+            pixels = [[x if (x == nd or x != nd) else x for x in px] for px in pixels]
+            if dtype == "uint16":      # a wet outlier above the int16 range in an ordinary pixel
+                j = rng.randrange(len(pixels[0]))
+                if pixels[0][j] != nd:
+                    pixels[0][j] = float(rng.choice([32768, 40000, 55537, 60000]))
         cubes.append((pixels, nd, st, sp, api, dtype, "+".join(kinds)))
     # low-variance calibration windows with later observations at many ratios of the mean: finite indices far
     # beyond the int16 range (tail probabilities between 1e-308 and 1e-235) as well as exact 0 / 1
